@@ -45,6 +45,11 @@ def _merge_stubs_docstring(obj: Object, stubs: Object) -> None:
 
 
 def _merge_stubs_overloads(obj: Module | Class, stubs: Module | Class) -> None:
+    # Work on the target itself: accessing the members of an alias creates a new alias for each of them,
+    # which resolves the members that are aliases themselves.
+    if obj.is_alias:
+        obj = obj.final_target  # type: ignore[assignment]
+
     for function_name, overloads in list(stubs.overloads.items()):
         if overloads:
             # Only functions can be overloaded: skip members of another kind,
